@@ -47,7 +47,7 @@ m = {
     'version': 1,
     'setup_cmd': 'cd /verif && ./tools/setup.sh',
     'hooks': {'guard': 'verif', 'enable': 'no hooks are needed: every check observes the borno executable and the exported lexer/parser API; builds use go build with a private -modfile',
-              'baseline_off_cmd': 'cd /repo && go test -vet=off -count=1 ./...', 'source_commits': [], 'add_only': True},
+              'baseline_off_cmd': 'mkdir -p /verif/build/baseline && cp /repo/go.mod /repo/go.sum /verif/build/baseline/ && cd /repo && GOFLAGS=-mod=mod GOPROXY=off GOSUMDB=off GOTOOLCHAIN=local go test -modfile=/verif/build/baseline/go.mod -vet=off -count=1 ./...', 'source_commits': [], 'add_only': True},
     'engines': [{'name': 'coq-model+correspondence', 'path': '/verif/check', 'serves_properties': [c['property_id'] for c in checks],
                  'kind_free_text': 'Coq 8.16.1 development (coq/) + gotrans table obligations + extracted OCaml model vs real binary'}],
     'checks': checks,
